@@ -34,7 +34,7 @@ class FunctionReciprocalTransformer(BaseReciprocalTransformer):
             "exp": (numpy.exp, "log"),
             "log(1+x)": (lambda x: numpy.log(x + 1), "exp(x)-1"),
             "log1p": (numpy.log1p, "expm1"),
-            "exp(x)-1": (lambda x: numpy.exp(x) - 1, "log"),
+            "exp(x)-1": (lambda x: numpy.exp(x) - 1, "log(1+x)"),
             "expm1": (numpy.expm1, "log1p"),
         }
 
